@@ -215,6 +215,7 @@ def summarise(leaf, macros, enums):
         toks = leaf
         text = ("!" if neg else "") + text
     fields, names, locs, consts = set(), set(), set(), set()
+    raw = {}
     for i, (k, v) in enumerate(toks):
         if k == "num":
             consts.add(int(re.sub(r"[uUlL]+$", "", v), 0))
@@ -229,6 +230,7 @@ def summarise(leaf, macros, enums):
                 fields.add(v)
             elif v in enums:
                 names.add(enums[v])
+                raw[enums[v]] = v
             elif v in macros and isinstance(macros[v], int):
                 names.add(v)
                 consts.add(macros[v])
@@ -243,7 +245,7 @@ def summarise(leaf, macros, enums):
     if not (fields or names or locs):
         return None
     return dict(text=text if ci is not None else text, op=op, cls=cls, fields=sorted(fields), names=sorted(names), locals=sorted(locs),
-                consts=sorted(consts))
+                consts=sorted(consts), raw=raw)
 
 
 def conditions(body, macros=None, enums=None):
